@@ -1,5 +1,6 @@
 import Driver.Util
 import DoitModel.Model.Status
+import Driver.UtdTools
 open Lean DoitModel.Status
 namespace Driver.Status
 /-! requests `{"model":"status","mode":"model"|"monitor","fixed":bool,"ntasks":n,"npaths":n,"ops":[op…]}`
@@ -183,6 +184,7 @@ def monStep (ntasks : Nat) (s : St) (e : Ev) : St × Json :=
   | .ignskip _ => (s, mk Json.null Json.null)
 
 def handle (j : Json) : Json :=
+  if jstr j "mode" = "utdtools" then Driver.UtdTools.handle j else
   match (jarr j "ops").mapM parseEv with
   | none => Driver.err "bad op"
   | some evs =>
